@@ -55,6 +55,7 @@ func c07Doc(name string, ti vocab.TypeInfo, known bool) map[string]interface{} {
 		}
 	case "Link":
 		d["href"] = "https://example.com/href"
+		d["rel"] = "canonical" // a registered relation name, not a URL: what was written is what arrives
 		delete(d, "summary")
 		d["name"] = "marker summary"
 	case "Actor":
@@ -104,6 +105,7 @@ func c07Value(name string, ti vocab.TypeInfo) ap.Item {
 		}
 	case "Link":
 		v.FieldByName("Href").SetString("https://example.com/href")
+		v.FieldByName("Rel").SetString("canonical")
 	case "Actor":
 		setItem("Inbox", ap.IRI("https://example.com/inbox"))
 	case "Activity":
@@ -178,6 +180,8 @@ func c07CheckMarkers(it ap.Item, name string, ti vocab.TypeInfo) string {
 	case "Link":
 		if sv.FieldByName("Href").String() != "https://example.com/href" {
 			bad = "href = " + sv.FieldByName("Href").String()
+		} else if sv.FieldByName("Rel").String() != "canonical" {
+			bad = "rel = " + sv.FieldByName("Rel").String()
 		}
 	case "Actor":
 		if link("Inbox") != "https://example.com/inbox" {
